@@ -68,9 +68,12 @@ func New(cfg Config) *Cluster {
 		}
 	}
 	sort.Slice(nodes, func(i, j int) bool { return nodes[i] < nodes[j] })
+	// the membership function reads the CURRENT map (SetMap may replace the party assignment between sessions)
 	membership := func() map[tss.UniversalID]tss.PartyID {
+		c.mu.Lock()
+		defer c.mu.Unlock()
 		m := map[tss.UniversalID]tss.PartyID{}
-		for u, p := range cfg.Map {
+		for u, p := range c.Cfg.Map {
 			m[tss.UniversalID(u)] = tss.PartyID(p)
 		}
 		return m
@@ -123,6 +126,17 @@ func (c *Cluster) newBackend(node uint16) *backend.Backend {
 	b := backend.New(c.Net, node, c.Cfg.Map[node], c.session, c.Cfg.Script)
 	c.Backends[node] = append(c.Backends[node], b)
 	return b
+}
+
+// SetMap replaces the party assignment of the (unchanged) node set; the schemes see it at their next call.
+func (c *Cluster) SetMap(m map[uint16]uint16) {
+	c.mu.Lock()
+	defer c.mu.Unlock()
+	nm := map[uint16]uint16{}
+	for u, p := range m {
+		nm[u] = p
+	}
+	c.Cfg.Map = nm
 }
 
 // NextSession gives the backends created from now on a new session id (and optionally a new script).
